@@ -101,6 +101,15 @@ def _one(args):
     rng = random.Random(seed * 7 + i)
     fam = rng.choice(["flat", "nested", "nested", "fi", "fi", "bankrupt", "flows"])
     prog = btgen.prog_by_family(seed, i, fam)
+    if rng.random() < 0.5:
+        # user algos may look at the reports while the backtest runs
+        def sprinkle(node):
+            if isinstance(node, dict) and "algos" in node:
+                node["algos"].insert(rng.randint(0, len(node["algos"])), ["ReadReports", {}])
+                for c in node.get("children", []):
+                    sprinkle(c)
+
+        sprinkle(prog["tree"])
     out = btdrv.run_program(prog, record=False, seed=seed * 131 + i)
     r = {"i": i, "family": fam, "exc": out["exc"], "msg": out["msg"], "prog": prog}
     if out["exc"] != "none":
